@@ -1,6 +1,7 @@
 (* C02 — incremental rule updates are equivalent to rebuilding; clones are isolated.
    Statements only; proofs in RIO.RouterProofs. *)
 Require Import RIO.Base RIO.Route RIO.Tree RIO.TreeInst RIO.Matchers RIO.MatcherSpec RIO.RouterSpec RIO.RouterHist RIO.RouterProofs.
+Require RIO.LazyRegex.
 Close Scope N_scope.
 
 (* After ANY admissible history of insert / remove / batch_remove / apply_change_set / cache / clone-and-mutate
@@ -82,8 +83,20 @@ Proof.
   intros r [<-|[]]. vm_compute. intros [].
 Qed.
 
+(* ---- clone isolation, the part a functional model CAN carry.  A router derived from a shared one (clone, then
+   update) owns deep copies of every matcher and tree (#[derive(Clone)]; a tree's LazyRegex sits behind an Arc that
+   cache() REPLACES, never mutates) and shares only immutable routes behind Arc — with ONE exception: the capture regex of
+   a marker string, an Arc<RwLock<LazyRegex>> that Router::cache on either router compiles in place.  That shared cell
+   is invisible: whatever number of compile calls the other router makes on it, regex() (what capture() uses) hands out
+   the same regex.  Everything else of the clause is Rust ownership and is observed by the run (real clone mutated,
+   original probed). *)
+Theorem C02_clone_shared_state_invisible : forall valid n (r : LazyRegex.lazyrx),
+  LazyRegex.wf valid r -> LazyRegex.regex_of valid (LazyRegex.compile_n valid n r) = LazyRegex.regex_of valid r.
+Proof. exact LazyRegex.shared_compile_invisible. Qed.
+
 Print Assumptions C02_refines.
 Print Assumptions C02_rebuild.
 Print Assumptions C02_len.
 Print Assumptions C02_remove_returns.
 Print Assumptions C02_removed_not_live.
+Print Assumptions C02_clone_shared_state_invisible.
